@@ -223,6 +223,12 @@ def gen_cases(tier, seed):
         ({'a/Report.txt': 'report A\n', 'b/Report.txt': 'report B\n'}, ['a/Report.txt', 'b/Report.txt']),
         ({'x/data.txt': 'one\n', 'y/data.txt': 'two\n'}, ['x', 'y']),
         ({'STDOUT': 'a file called STDOUT\n'}, ['STDOUT']),
+        # an empty file (refused as text) and a binary file in a sub-directory, named explicitly / by directory
+        ({'sub/errors.log': '', 'sub/report.txt': 'report\n'}, ['sub/errors.log', 'sub/report.txt']),
+        ({'logs/empty.log': '', 'logs/blob.dat': b'\x00\x01\x02\xff', 'logs/r.txt': 'r\n'}, ['logs']),
+        # two glob patterns: every file matched by either must get its check
+        ({'alpha.out': 'alpha\n', 'gamma.out': 'gamma\n', 'beta.csv': 'a,b\n1,2\n', 'delta.csv': 'c\n3\n'},
+         ['*.out', '*.csv']),
         # a qualified name (x + '2') that is already another file's name
         ({'a/x2': 'first\n', 'b/x': 'second\n', 'c/x': 'third\n'}, ['a/x2', 'b/x', 'c/x']),
         # output files named like the generated script's own checks
